@@ -18,6 +18,18 @@ def check(res, rec):
                       detail=f"pre {rec.pre}\npost {rec.post}", replay=rec.replay)
 
 
+def run_optimized(ctx):
+    """the core and constructor obligations with the interpreter in -O mode (validation written as assert statements does nothing there)"""
+    res = ctx.res
+    h = H(ctx.src, ["edgegraph.builder.explicit", "edgegraph.traversal.helpers"])
+    n = 0
+    import itertools
+    for rec in itertools.chain(struct.core_runs(h, 3, res=res), struct.ctor_runs(h, res=res), struct.explicit_runs(h, res=res, thorough=False)):
+        check(res, rec)
+        n += 1
+    res.rule("python-O", n)
+
+
 def run_warnings_as_errors(ctx):
     """I1 after every mutator call that a warning-turned-error ends half-way (the statement: also after a call that raised)"""
     res = ctx.res
